@@ -52,3 +52,6 @@ pub assume_specification<T, A: std::alloc::Allocator>[ Vec::<T, A>::push_within_
 pub assume_specification<T, A: std::alloc::Allocator>[ Vec::<T, A>::capacity ](v: &Vec<T, A>) -> (r: usize);
 //@trusted assume_specification Vec::push_within_capacity pushes or returns the value unchanged (nightly path)
 //@endif
+pub assume_specification<'a>[ <Chars<'a> as Iterator>::count ](c: Chars<'a>) -> (r: usize)
+    ensures r == c.remaining().len();
+//@trusted assume_specification <Chars as Iterator>::count == number of remaining scalar values
